@@ -94,12 +94,49 @@ def enumerate_cases(tier: str, seed: int) -> list[dict[str, Any]]:
         if own is not None and own not in opsets:
             opsets.append(own)
         cases.append({"key": f"reg:{tp['_pid']}", "src": "registry", "pid": tp["_pid"], "opsets": sorted(set(opsets)), "cost": len(opsets)})
+    for name in _dtype_programs():
+        cases.append({"key": f"dtype:{name}", "src": "dtype", "name": name, "opsets": list(CLAIMED), "cost": 7.0})
     return recs.only_filter(cases)
 
 
+def _dtype_programs() -> dict[str, dict[str, Any]]:
+    """Programs over element types whose operator support changed between opsets."""
+    import jax
+    import jax.numpy as jnp
+    from jax import lax
+
+    P: dict[str, dict[str, Any]] = {}
+    f16, bf16 = jnp.float16, jnp.bfloat16
+    sc = lambda dt: jax.ShapeDtypeStruct((), dt)  # noqa: E731
+    v = lambda dt, n=6: jax.ShapeDtypeStruct((n,), dt)  # noqa: E731
+    for nm, dt in (("f16", f16), ("bf16", bf16), ("i8", jnp.int8), ("u8", jnp.uint8), ("i16", jnp.int16)):
+        P[f"arange_dynamic_stop_{nm}"] = {"fn": (lambda dt: lambda stop: jnp.arange(stop, dtype=dt))(dt), "specs": [sc(jnp.float32)], "x": [np.float32(5.0)]}
+        P[f"arange_dynamic_start_stop_step_{nm}"] = {"fn": (lambda dt: lambda a, b: jnp.arange(a, b, 2, dtype=dt))(dt), "specs": [sc(jnp.int32), sc(jnp.int32)], "x": [np.int32(1), np.int32(9)]}
+        P[f"iota_{nm}"] = {"fn": (lambda dt: lambda x: x.astype(dt) + lax.iota(dt, 6))(dt), "specs": [v(jnp.float32)], "x": [np.arange(6, dtype=np.float32)]}
+        P[f"cumsum_{nm}"] = {"fn": (lambda dt: lambda x: jnp.cumsum(x.astype(dt)))(dt), "specs": [v(jnp.float32)], "x": [np.arange(6, dtype=np.float32)]}
+        P[f"elementwise_{nm}"] = {"fn": (lambda dt: lambda x: jnp.maximum(x.astype(dt) * 2, x.astype(dt)) + jnp.abs(x.astype(dt)))(dt), "specs": [v(jnp.float32)], "x": [np.arange(6, dtype=np.float32)]}
+        P[f"where_clip_{nm}"] = {"fn": (lambda dt: lambda x: jnp.clip(jnp.where(x > 2, x, -x).astype(dt), 0, 4))(dt), "specs": [v(jnp.float32)], "x": [np.arange(6, dtype=np.float32)]}
+        P[f"reduce_{nm}"] = {"fn": (lambda dt: lambda x: (jnp.sum(x.astype(dt)), jnp.max(x.astype(dt)), jnp.argmax(x.astype(dt))))(dt), "specs": [v(jnp.float32)], "x": [np.arange(6, dtype=np.float32)]}
+        P[f"gather_pad_{nm}"] = {"fn": (lambda dt: lambda x: jnp.pad(x.astype(dt)[jnp.array([3, 1])], 1))(dt), "specs": [v(jnp.float32)], "x": [np.arange(6, dtype=np.float32)]}
+    for nm, dt in (("f16", f16), ("bf16", bf16)):
+        P[f"activations_{nm}"] = {"fn": (lambda dt: lambda x: jax.nn.gelu(x.astype(dt)) + jax.nn.silu(x.astype(dt)) + jax.nn.softmax(x.astype(dt)))(dt), "specs": [v(jnp.float32)], "x": [np.arange(6, dtype=np.float32) / 3]}
+        P[f"matmul_layernorm_{nm}"] = {"fn": (lambda dt: lambda x: ((lambda h: (h - h.mean()) / jnp.sqrt(h.var() + 1e-3))(x.astype(dt).reshape(2, 3) @ jnp.ones((3, 3), dt))))(dt), "specs": [v(jnp.float32)], "x": [np.arange(6, dtype=np.float32) / 3]}
+        P[f"round_floor_{nm}"] = {"fn": (lambda dt: lambda x: jnp.round(x.astype(dt)) + jnp.floor(x.astype(dt) * 1.5))(dt), "specs": [v(jnp.float32)], "x": [np.arange(6, dtype=np.float32) / 3]}
+        P[f"linspace_dynamic_{nm}"] = {"fn": (lambda dt: lambda a: jnp.linspace(a, a + 2, 5, dtype=dt))(dt), "specs": [sc(jnp.float32)], "x": [np.float32(1.0)]}
+    return P
+
+
 def run_case(case: dict[str, Any], tier: str, seed: int) -> dict[str, Any]:
-    tp = registry.by_pid(case["pid"])
-    prog = programs.from_registry(tp)
+    if case["src"] == "dtype":
+        spec = _dtype_programs()[case["name"]]
+        tp = {}
+        prog = programs.Program(
+            pid=case["key"], family=f"dtype/{case['name']}", make_fn=lambda: spec["fn"], specs=lambda: list(spec["specs"]),
+            signature=lambda b: [(tuple(s.shape), np.dtype(s.dtype)) for s in spec["specs"]], given=[list(spec["x"])], source="dtype",
+        )
+    else:
+        tp = registry.by_pid(case["pid"])
+        prog = programs.from_registry(tp)
     rec: dict[str, Any] = {"evals": 0, "nontrivial": [], "violations": [], "obs": {}}
 
     def bump(k: str, n: int = 1) -> None:
